@@ -513,13 +513,95 @@ package graphql
 //@   loop 2 ensures calls("collectConflictsBetweenFieldsAndFragment") == atloop(2, calls("collectConflictsBetweenFieldsAndFragment")) + 1
 //@   loop 4 ensures calls("collectConflictsBetweenFragments") == atloop(4, calls("collectConflictsBetweenFragments")) + 1
 
-// assumed frames of the helpers the drivers call (bodies not verified here)
+// (verified, were assumed frames) the pairwise comparison itself. Within one collection every two fields of one
+// response name are compared (never as mutually exclusive); between two collections every field of the first is
+// compared with every field of the second under the same response name, with the exclusivity handed in; a
+// conflict that the comparison finds is reported.
 //@ func overlappingFieldsCanBeMergedRule.collectConflictsBetween
-//@   trusted
+//@   props C02
+//@   nosafety
+//@   requires rule != nil && rule.comparedFieldsAndFragmentSet != nil && rule.comparedFieldsAndFragmentSet.data != nil && rule.comparedSet != nil && rule.cacheMap != nil
 //@   assigns class:M|, class:E|, class:graphql.ValidationContext, class:graphql.pairSet, class:graphql.fieldsAndFragmentNames, class:graphql.fieldDefPair, class:graphql.conflict
+//@   loop 1 over fieldsInfo1.fieldsOrder
+//@   loop 1 invariant len(conflicts) >= old(len(conflicts))
+//@   loop 2 invariant 0 <= i && len(conflicts) >= atloop(1, len(conflicts))
+//@   loop 3 invariant 0 <= k && len(conflicts) >= atloop(2, len(conflicts))
+//@   at call findConflict: assert arg1 == parentFieldsAreMutuallyExclusive && arg2 == responseName && 0 <= i && i < len(fields1) && 0 <= k && k < len(fields2) && arg3 == fields1[i] && arg4 == fields2[k]
+// only a response name that BOTH collections have is compared
+//@   at call findConflict: assert ok1 && ok2
+//@   loop 3 ensures k == atloop(3, k) + 1 && calls("findConflict") == atloop(3, calls("findConflict")) + 1
+//@   loop 3 ensures lastresult("findConflict") != nil ==> len(conflicts) == atloop(3, len(conflicts)) + 1
+//@   loop 3 ensures lastresult("findConflict") == nil ==> len(conflicts) == atloop(3, len(conflicts))
+//@   loop 2 ensures i == atloop(2, i) + 1 && len(conflicts) >= atloop(2, len(conflicts))
+//@   loop 1 ensures len(conflicts) >= atloop(1, len(conflicts))
+//@   ensures len(result) >= old(len(conflicts))
 //@ func overlappingFieldsCanBeMergedRule.collectConflictsWithin
-//@   trusted
+//@   props C02
+//@   nosafety
+//@   requires rule != nil && rule.comparedFieldsAndFragmentSet != nil && rule.comparedFieldsAndFragmentSet.data != nil && rule.comparedSet != nil && rule.cacheMap != nil
 //@   assigns class:M|, class:E|, class:graphql.ValidationContext, class:graphql.pairSet, class:graphql.fieldsAndFragmentNames, class:graphql.fieldDefPair, class:graphql.conflict
+//@   loop 1 over fieldsInfo.fieldsOrder
+//@   loop 1 invariant len(conflicts) >= old(len(conflicts))
+//@   loop 2 invariant 0 <= i && len(conflicts) >= atloop(1, len(conflicts))
+//@   loop 3 invariant i + 1 <= k && len(conflicts) >= atloop(2, len(conflicts))
+//@   at call findConflict: assert arg1 == false && arg2 == responseName && 0 <= i && i < k && k < len(fields) && arg3 == fields[i] && arg4 == fields[k]
+//@   loop 3 ensures k == atloop(3, k) + 1 && calls("findConflict") == atloop(3, calls("findConflict")) + 1
+//@   loop 3 ensures lastresult("findConflict") != nil ==> len(conflicts) == atloop(3, len(conflicts)) + 1
+//@   loop 3 ensures lastresult("findConflict") == nil ==> len(conflicts) == atloop(3, len(conflicts))
+//@   loop 2 ensures i == atloop(2, i) + 1 && len(conflicts) >= atloop(2, len(conflicts))
+//@   loop 1 ensures len(conflicts) >= atloop(1, len(conflicts))
+//@   ensures len(result) >= old(len(conflicts))
+// Two fields of one response name conflict when they may apply to the same object (the parents are not two
+// different object types, and no enclosing comparison was exclusive) and name different fields or carry
+// different arguments; or when their types conflict (always compared); or when their sub-selections conflict
+// (compared under the named types of the two fields, with the exclusivity found here).
+//@ func overlappingFieldsCanBeMergedRule.findConflict
+//@   props C02
+//@   nosafety
+//@   requires rule != nil && rule.comparedFieldsAndFragmentSet != nil && rule.comparedFieldsAndFragmentSet.data != nil && rule.comparedSet != nil && rule.cacheMap != nil
+//@   assigns class:M|, class:E|, class:graphql.ValidationContext, class:graphql.pairSet, class:graphql.fieldsAndFragmentNames, class:graphql.fieldDefPair, class:graphql.conflict
+//@   at return: assert parentFieldsAreMutuallyExclusive ==> areMutuallyExclusive
+//@   at return: assert areMutuallyExclusive && !parentFieldsAreMutuallyExclusive ==> typeis(old(field.ParentType), "*graphql.Object") && typeis(old(field2.ParentType), "*graphql.Object")
+//@   at return: assert areMutuallyExclusive && !parentFieldsAreMutuallyExclusive ==> old(field.ParentType) != old(field2.ParentType)
+//@   at return: assert typeis(old(field.ParentType), "*graphql.Object") && typeis(old(field2.ParentType), "*graphql.Object") && old(field.ParentType) != old(field2.ParentType) ==> areMutuallyExclusive
+//@   at return: assert !areMutuallyExclusive && old(field.Field.Name) != nil && old(field2.Field.Name) != nil && old(field.Field.Name.Value) != old(field2.Field.Name.Value) ==> result != nil && calls("sameArguments") == 0
+//@   at return: assert !areMutuallyExclusive && old(field.Field.Name) != nil && old(field2.Field.Name) != nil && old(field.Field.Name.Value) == old(field2.Field.Name.Value) ==> calls("sameArguments") == 1
+//@   at call sameArguments: assert !areMutuallyExclusive && arg0 == old(field.Field.Arguments) && arg1 == old(field2.Field.Arguments)
+//@   at return: assert calls("sameArguments") == 1 && !lastresult("sameArguments") ==> result != nil
+//@   at call doTypesConflict: assert old(field.FieldDef) != nil && old(field2.FieldDef) != nil && arg0 == old(field.FieldDef.Type) && arg1 == old(field2.FieldDef.Type)
+//@   at return: assert calls("doTypesConflict") == 1 && lastresult("doTypesConflict") ==> result != nil
+//@   at return: assert result == nil && old(field.FieldDef) != nil && old(field2.FieldDef) != nil && old(field.FieldDef.Type) != nil && old(field2.FieldDef.Type) != nil ==> calls("doTypesConflict") == 1
+//@   at call GetNamed#1: assert arg0 == type1
+//@   at call GetNamed#2: assert arg0 == type2
+//@   at call findConflictsBetweenSubSelectionSets: assert arg1 == areMutuallyExclusive && arg2 == lastresult("GetNamed@1") && arg3 == old(field.Field.SelectionSet) && arg4 == lastresult("GetNamed@2") && arg5 == old(field2.Field.SelectionSet)
+//@   at return: assert result == nil && old(field.Field.SelectionSet) != nil && old(field2.Field.SelectionSet) != nil ==> calls("findConflictsBetweenSubSelectionSets") == 1
+//@   at call subfieldConflicts: assert arg0 == lastresult("findConflictsBetweenSubSelectionSets") && arg1 == responseName && arg2 == old(field.Field) && arg3 == old(field2.Field)
+//@   at return: assert calls("subfieldConflicts") == 1 ==> result == lastresult("subfieldConflicts")
+//@   at return: assert result != nil && calls("subfieldConflicts") == 0 ==> len(result.FieldsLeft) == 1 && len(result.FieldsRight) == 1
+// every sub-conflict is folded into the one conflict reported for the pair (none: no conflict)
+//@ func subfieldConflicts
+//@   props C02 C18
+//@   nosafety
+//@   assigns nothing
+//@   ensures len(conflicts) == 0 ==> result == nil
+//@   ensures len(conflicts) > 0 ==> result != nil && fresh(result) && len(result.FieldsLeft) >= 1 && len(result.FieldsRight) >= 1
+//@   loop 1 over conflicts
+//@   loop 1 invariant fresh(conflictReasons) && fresh(conflictFieldsLeft) && fresh(conflictFieldsRight) && len(conflictFieldsLeft) >= 1 && len(conflictFieldsRight) >= 1
+//@   loop 1 ensures len(conflictReasons) == atloop(1, len(conflictReasons)) + 1 && len(conflictFieldsLeft) == atloop(1, len(conflictFieldsLeft)) + len(c.FieldsLeft) && len(conflictFieldsRight) == atloop(1, len(conflictFieldsRight)) + len(c.FieldsRight)
+// list and non-null wrappers must match level by level; two leaf types must be the same type; composite
+// types never conflict here (their fields are compared)
+//@ func doTypesConflict
+//@   props C02
+//@   nosafety
+//@   assigns nothing
+//@   ensures typeis(type1, "*graphql.List") != typeis(type2, "*graphql.List") ==> result
+//@   ensures !typeis(type1, "*graphql.List") && !typeis(type2, "*graphql.List") && typeis(type1, "*graphql.NonNull") != typeis(type2, "*graphql.NonNull") ==> result
+//@   ensures typeis(type1, "*graphql.List") && typeis(type2, "*graphql.List") ==> calls("doTypesConflict") == 1 && result == lastresult("doTypesConflict")
+//@   ensures !typeis(type1, "*graphql.List") && !typeis(type2, "*graphql.List") && typeis(type1, "*graphql.NonNull") && typeis(type2, "*graphql.NonNull") ==> calls("doTypesConflict") == 1 && result == lastresult("doTypesConflict")
+//@   at call doTypesConflict#1: assert arg0 == as(old(type1), "*graphql.List").OfType && arg1 == as(old(type2), "*graphql.List").OfType
+//@   at call doTypesConflict#3: assert arg0 == as(old(type1), "*graphql.NonNull").OfType && arg1 == as(old(type2), "*graphql.NonNull").OfType
+//@   ensures !typeis(type1, "*graphql.List") && !typeis(type2, "*graphql.List") && !typeis(type1, "*graphql.NonNull") && !typeis(type2, "*graphql.NonNull") && (IsLeafType_0(type1) || IsLeafType_0(type2)) ==> (result <==> type1 != type2)
+//@   ensures !typeis(type1, "*graphql.List") && !typeis(type2, "*graphql.List") && !typeis(type1, "*graphql.NonNull") && !typeis(type2, "*graphql.NonNull") && !IsLeafType_0(type1) && !IsLeafType_0(type2) ==> !result
 // C19 (memo effectiveness): the collected fields of a selection set are computed once per rule instance:
 // a hit returns the stored collection without collecting again, a miss stores what it returns under the
 // selection set itself (the (fields, fragment) memo is keyed by this pointer, so a collection that is not
@@ -1037,10 +1119,46 @@ package graphql
 
 // ---- planning: one entry per response key, in document order; shared visited set (C01, C13, C19) ----
 
+// (verified, was an assumed frame) @skip / @include at plan time (C01): every @skip and @include present on the
+// node is consulted with its OWN arguments against its OWN argument definitions; an occurrence is excluded for
+// good exactly when a variable-free @skip says true or a variable-free @include says false; a per-request
+// predicate is handed back exactly when a directive that is present depends on variables; the predicate
+// evaluates the variable-dependent directives with the request's variables and excludes exactly when @skip
+// says true or @include says false.
 //@ func planDirectives
-//@   props C02
+//@   props C01 C02
 //@   nosafety
 //@   assigns nothing
+//@   loop 1 over directives
+// no @skip / @include on the node is overlooked, and nothing else is taken for one (which of two directives of
+// the same name counts is left open: such a document is not valid)
+//@   loop[C01] 1 ensures d != nil && d.Name != nil && d.Name.Value == SkipDirective.Name ==> skipDir != nil
+//@   loop[C01] 1 ensures d != nil && d.Name != nil && d.Name.Value != SkipDirective.Name && d.Name.Value == IncludeDirective.Name ==> includeDir != nil
+//@   loop[C01] 1 invariant skipDir != nil ==> skipDir.Name != nil && skipDir.Name.Value == SkipDirective.Name
+//@   loop[C01] 1 invariant includeDir != nil ==> includeDir.Name != nil && includeDir.Name.Value == IncludeDirective.Name
+//@   at[C01] call astHasVariables#1: assert skipDir != nil && arg0 == skipDir.Arguments
+//@   at[C01] call astHasVariables#2: assert includeDir != nil && arg0 == includeDir.Arguments
+//@   at[C01] call getArgumentValues#1: assert arg0 == SkipDirective.Args && arg1 == skipDir.Arguments && arg2 == nil
+//@   at[C01] call getArgumentValues#2: assert arg0 == IncludeDirective.Args && arg1 == includeDir.Arguments && arg2 == nil
+//@   at[C01] return: assert !alwaysSkip && skipDir != nil ==> calls("astHasVariables@1") == 1
+//@   at[C01] return: assert !alwaysSkip && includeDir != nil ==> calls("astHasVariables@2") == 1
+//@   at[C01] return: assert calls("astHasVariables@1") == 1 && !lastresult("astHasVariables@1") ==> calls("getArgumentValues@1") == 1
+//@   at[C01] return: assert !alwaysSkip && calls("astHasVariables@2") == 1 && !lastresult("astHasVariables@2") ==> calls("getArgumentValues@2") == 1
+//@   at[C01] return: assert calls("getArgumentValues@1") == 1 && typeis(lastresult("getArgumentValues@1")["if"], "bool") && boolval(lastresult("getArgumentValues@1")["if"]) ==> alwaysSkip
+//@   at[C01] return: assert calls("getArgumentValues@2") == 1 && typeis(lastresult("getArgumentValues@2")["if"], "bool") && !boolval(lastresult("getArgumentValues@2")["if"]) ==> alwaysSkip
+//@   at[C01] return: assert alwaysSkip ==> pred == nil && ((calls("getArgumentValues@1") == 1 && calls("getArgumentValues@2") == 0 && typeis(lastresult("getArgumentValues@1")["if"], "bool") && boolval(lastresult("getArgumentValues@1")["if"])) || (calls("getArgumentValues@2") == 1 && typeis(lastresult("getArgumentValues@2")["if"], "bool") && !boolval(lastresult("getArgumentValues@2")["if"])))
+//@   at[C01] return: assert !alwaysSkip ==> ((pred != nil) <==> ((calls("astHasVariables@1") == 1 && lastresult("astHasVariables@1")) || (calls("astHasVariables@2") == 1 && lastresult("astHasVariables@2"))))
+//@ func planDirectives$1
+//@   props C01
+//@   nosafety
+//@   assigns nothing
+//@   at call getArgumentValues#1: assert arg0 == SkipDirective.Args && arg1 == skipDyn.Arguments && arg2 == vars
+//@   at call getArgumentValues#2: assert arg0 == IncludeDirective.Args && arg1 == includeDyn.Arguments && arg2 == vars
+//@   at return: assert skipDyn != nil ==> calls("getArgumentValues@1") == 1
+//@   at return: assert result && includeDyn != nil ==> calls("getArgumentValues@2") == 1
+//@   at return: assert calls("getArgumentValues@1") == 1 && typeis(lastresult("getArgumentValues@1")["if"], "bool") && boolval(lastresult("getArgumentValues@1")["if"]) ==> !result
+//@   at return: assert calls("getArgumentValues@2") == 1 && typeis(lastresult("getArgumentValues@2")["if"], "bool") && !boolval(lastresult("getArgumentValues@2")["if"]) ==> !result
+//@   at return: assert !result ==> (calls("getArgumentValues@1") == 1 && calls("getArgumentValues@2") == 0 && typeis(lastresult("getArgumentValues@1")["if"], "bool") && boolval(lastresult("getArgumentValues@1")["if"])) || (calls("getArgumentValues@2") == 1 && typeis(lastresult("getArgumentValues@2")["if"], "bool") && !boolval(lastresult("getArgumentValues@2")["if"]))
 //@ func getFieldEntryKey
 //@   props C02
 //@   nosafety
